@@ -12,8 +12,11 @@
 package main
 
 import (
+	"context"
 	"encoding/json"
 	"fmt"
+	"github.com/jech/galene/group"
+	"github.com/jech/galene/rtpconn"
 	"os"
 	"sort"
 	"strings"
@@ -91,18 +94,31 @@ type world struct {
 	alpha   string
 	outcome string
 	nmsg    int
+	// the publisher as offers name it (a web client, or a WHIP session)
+	pubID, pubUser string
+	whip           *rtpconn.WhipClient
 }
 
 func fresh(alpha string) func() seqx.World {
 	return func() seqx.World {
-		return &world{w: sig.NewWorld(map[string]string{"g": groupG, "h": groupG}, 3),
-			streams: map[string]*stream{}, subs: map[int]*sub{}, pcs: map[string]*webrtc.PeerConnection{}, alpha: alpha}
+		w := &world{w: sig.NewWorld(map[string]string{"g": groupG, "h": groupG}, 3),
+			streams: map[string]*stream{}, subs: map[int]*sub{}, pcs: map[string]*webrtc.PeerConnection{}, alpha: alpha,
+			pubID: "c0", pubUser: "bob"}
+		if alpha == "whip" {
+			w.pubID = whipID
+		}
+		return w
 	}
 }
+
+const whipID = "whip-session-1"
 
 func (w *world) Close() {
 	for _, pc := range w.pcs {
 		pc.Close()
+	}
+	if w.whip != nil {
+		w.whip.Close()
 	}
 	w.w.Close()
 }
@@ -111,7 +127,18 @@ func (w *world) Ops() []seqx.Op {
 	var ops []seqx.Op
 	full := w.alpha == "full"
 	// publisher
-	if !w.w.Clients[0].V.Closed {
+	if w.alpha == "whip" {
+		// a WHIP session publishes (one stream, named after the session, no label)
+		switch s := w.streams[whipID]; {
+		case s == nil:
+			ops = append(ops, op{C: -1, Kind: "whip-publish"})
+		case s.alive:
+			if len(s.tracks) < 2 {
+				ops = append(ops, op{C: -1, Kind: "whip-track"})
+			}
+			ops = append(ops, op{C: -1, Kind: "whip-close"})
+		}
+	} else if !w.w.Clients[0].V.Closed {
 		if w.pubIn == "" {
 			ops = append(ops, op{C: 0, Kind: "join", Arg: "g"})
 		} else {
@@ -170,7 +197,7 @@ func (w *world) Ops() []seqx.Op {
 				ops = append(ops, op{C: i, Kind: "answer", Arg: d.ID})
 			}
 		}
-		if i == 2 && sb.group == "g" && w.pubIn == "g" {
+		if i == 2 && sb.group == "g" && w.pubIn == "g" && w.alpha != "whip" {
 			ops = append(ops, op{C: 2, Kind: "kick"}, op{C: 2, Kind: "unpresent"})
 		}
 		if full {
@@ -329,8 +356,8 @@ func (w *world) observe(all [][]sig.Msg, actor int, kind string) *core.Violation
 				if s == nil {
 					return viol("offer-unknown-stream", fmt.Sprintf("c%d was offered a stream %s that was never published", k, id))
 				}
-				if str(m["source"]) != "c0" || str(m["username"]) != "bob" {
-					return viol("offer-wrong-origin", fmt.Sprintf("offer of %s to c%d names source %v / username %v; the publisher is c0 / bob", id, k, m["source"], m["username"]))
+				if str(m["source"]) != w.pubID || str(m["username"]) != w.pubUser {
+					return viol("offer-wrong-origin", fmt.Sprintf("offer of %s to c%d names source %v / username %v; the publisher is %s / %s", id, k, m["source"], m["username"], w.pubID, w.pubUser))
 				}
 				if str(m["label"]) != s.label {
 					return viol("offer-wrong-label", fmt.Sprintf("offer of %s carries label %v, the stream's label is %s", id, m["label"], s.label))
@@ -411,6 +438,46 @@ func (w *world) Apply(x seqx.Op) *core.Violation {
 		user = users[o.C]
 	}
 	switch o.Kind {
+	case "whip-publish":
+		// what POST /group/g/.whip does after checking the credentials
+		var fault string
+		w.streams[whipID] = &stream{id: whipID, label: "", alive: true}
+		w.pubIn, w.present = "g", true
+		obs = w.w.Do(func() {
+			g, err := group.Add("g", nil)
+			if err != nil {
+				fault = err.Error()
+				return
+			}
+			wc := rtpconn.NewWhipClient(g, whipID, "", nil)
+			u := "bob"
+			if _, err := group.AddClient("g", wc, group.ClientCredentials{Username: &u, Password: "p"}); err != nil {
+				fault = "WHIP join refused: " + err.Error()
+				return
+			}
+			w.whip = wc
+			ctx, cancel := context.WithTimeout(context.Background(), 5*time.Second)
+			defer cancel()
+			if _, err := wc.NewConnection(ctx, []byte(sig.OfferSDP("av"))); err != nil {
+				fault = "WHIP connection: " + err.Error()
+			}
+		})
+		if fault != "" {
+			return &core.Violation{Signature: "HARNESS-FAULT", What: fault}
+		}
+	case "whip-track":
+		s := w.streams[whipID]
+		t := trackList[len(s.tracks)]
+		codec := fwd.Opus
+		if t.kind == webrtc.RTPCodecTypeVideo {
+			codec = fwd.VP8
+		}
+		obs = w.w.Do(func() { rtpconn.VerifWhipTrack(w.whip, t.kind, t.id, "", codec) })
+		s.tracks = append(s.tracks, track{t.id, t.kind.String()})
+	case "whip-close":
+		w.endStream(whipID)
+		w.pubIn = ""
+		obs = w.w.Do(func() { w.whip.Close() })
 	case "task":
 		if o.N >= len(w.w.Tasks()) {
 			return nil
@@ -736,6 +803,9 @@ func presets() map[string][]seqx.Op {
 		// the publisher offered while alone (its delayed push is still
 		// pending, with the member list of that moment), then a subscriber
 		// joined and asked for everything; the tracks are yet to come
+		// (alphabet "whip" only) a WHIP session publishing to two subscribers that asked for everything
+		"whip-two-subscribers": {op{C: -1, Kind: "whip-publish"}, op{C: 1, Kind: "join", Arg: "g"}, op{C: 1, Kind: "request", Arg: "all"},
+			op{C: 2, Kind: "join", Arg: "g"}, op{C: 2, Kind: "request", Arg: "all"}},
 		"offered-alone-then-joined": {op{C: 0, Kind: "join", Arg: "g"}, op{C: 0, Kind: "offer", Arg: "s1", Arg2: "camera"},
 			op{C: 1, Kind: "join", Arg: "g"}, op{C: 1, Kind: "request", Arg: "all"}},
 	}
@@ -778,7 +848,7 @@ func main() {
 	}
 	job := 0
 	agg := map[string]*core.Sub{}
-	for _, a := range []string{"small", "full"} {
+	for _, a := range []string{"small", "full", "whip"} {
 		// NOTE: every shard must enumerate the jobs in the same order
 		ps := presets()
 		pnames := make([]string, 0, len(ps))
@@ -794,6 +864,9 @@ func main() {
 				continue
 			}
 			if a == "small" && pname == "two-streams-all" {
+				continue
+			}
+			if (a == "whip") != (pname == "whip-two-subscribers" || a == "whip" && pname == "empty") {
 				continue
 			}
 			// shard by the first operation after the preset
@@ -838,7 +911,7 @@ func main() {
 			}
 		}
 	}
-	for _, a := range []string{"small", "full"} {
+	for _, a := range []string{"small", "full", "whip"} {
 		if x := agg[a]; x != nil {
 			res.AddSub(*x)
 		}
